@@ -73,7 +73,7 @@ def gen(rng, k):
         # the same service on the FD layer: up to 14 codes travel in one multi-PG frame, more as an FD broadcast — for more cycles
         # than there are broadcast session numbers
         dll = 'j1939-22'
-        n = rng.choice([1, 3, 14, 15, 16, 40])
+        n = rng.choice([3, 14, 15, 16, 16, 40])
         dtcs = [[rng.getrandbits(19), rng.getrandbits(5), rng.getrandbits(7)] for _ in range(n)]
         cycle = rng.choice([150000, 400000])
         stop = 1000 + cycle * rng.choice([2, 6, 7]) + rng.choice([1000, cycle // 2])
@@ -238,6 +238,10 @@ def oracle(sc, res):
     kinds = [e[0] for e in res.events]
     if 'stop' in kinds and 'call' in kinds[kinds.index('stop'):]:
         v.append(dict(kind='dm1-callback-invoked-after-stop_send-returned', stop=sc['stop'], events=[(e[0], e[1]) for e in res.events][-4:]))
+    if not all(res.empty):
+        # "until stop_send": when the last DM1 has gone out nothing of the service is left behind — no transport session, no session
+        # number still taken
+        v.append(dict(kind='dm1-sender-or-receiver-not-idle-afterwards', tables_empty=list(res.empty)))
     if sc.get('overlap') or sc.get('stop_mode') in ('timer', 'self'):
         # cycles that fire while a DM1 is in flight are refused; the per-cycle counts below do not apply
         for j, js in enumerate(res.job):
